@@ -529,7 +529,9 @@ fn decode_hdr(h: &[u8], mix: CMix) -> Hdr {
         plan,
         policy: if b(8) % 3 == 0 { GrantPolicy::Plus(1 + b(9) as usize % 40) } else { GrantPolicy::Exact },
         congruence: u64::from_le_bytes([b(8), b(9), b(10), b(11), b(12), b(13), b(14), b(15)]),
-        prealloc: b(10) as usize % 97,
+        // (no pre-allocation in a quarter of the cases: the first prepared allocation then meets an untouched,
+        //  possibly unallocated arena)
+        prealloc: if b(13) % 4 == 0 { 0 } else { b(10) as usize % 97 },
         ctor: b(11),
     }
 }
@@ -1188,6 +1190,47 @@ fn run_shared<'a: 'b, 'b, T: Elem + Clone + PartialEq>(st: &mut St, h: &Hdr, a: 
                 }
             }
             check_registry(st, &what);
+            continue;
+        }
+        if st.mix == CMix::C16 && meta == 6 && !T::ZST && lives.len() >= 2 && with_reg(|r| r.panic_at.is_none()) {
+            // merge two live BumpBox<[T]> (possibly empty, possibly far apart): accepted exactly when the first ends
+            // where the second starts
+            let other = pick(r.u16(2), lives.len());
+            if other != which && lives[which].v.kind() == KindId::Boxed && lives[other].v.kind() == KindId::Boxed {
+                let (hi, lo) = (which.max(other), which.min(other));
+                let lb = lives.remove(hi);
+                let la = lives.remove(lo);
+                let (first, second) = if which < other { (la, lb) } else { (lb, la) };
+                let (m1, m2) = (first.m.clone(), second.m.clone());
+                let (Some(b1), Some(b2)) = (first.v.take_boxed(), second.v.take_boxed()) else { continue };
+                let esz = std::mem::size_of::<T>();
+                let adjacent = b1.as_ptr() as usize + b1.len() * esz == b2.as_ptr() as usize;
+                let what = format!("merge of two live slices {m1:?} @ {:#x} and {m2:?} @ {:#x} (adjacent: {adjacent})", b1.as_ptr() as usize, b2.as_ptr() as usize);
+                st.note(|| what.clone());
+                st.ops += 1;
+                st.mixh(0x3e46e ^ (m1.len() as u64) << 20 ^ (m2.len() as u64) << 32 ^ adjacent as u64);
+                match catch_unwind(AssertUnwindSafe(|| b1.merge(b2))) {
+                    Ok(mb) => {
+                        let mut exp = m1.clone();
+                        exp.extend_from_slice(&m2);
+                        if !adjacent {
+                            st.fail("C16/merge", format!("{what}: merging non-adjacent parts did not panic, gave {:?}", vals_of(&mb)));
+                        } else if vals_of(&mb) != exp {
+                            st.fail("C16/merge", format!("{what}: gave {:?}, expected {exp:?}", vals_of(&mb)));
+                        }
+                        st.class("merged");
+                        let mv = vals_of(&mb);
+                        lives.push(Live { v: Box::new(KBoxed(mb)), m: mv, promised: 1 });
+                    }
+                    Err(p) => {
+                        if adjacent {
+                            st.fail("C16/merge", format!("{what}: merging adjacent parts panicked: {}", panic_message(&p)));
+                        }
+                        st.class("merge_rejected");
+                    }
+                }
+                check_registry(st, &what);
+            }
             continue;
         }
         if (meta == 4 || (st.mix == CMix::C16 && meta == 5)) && lives[which].v.kind() == KindId::Boxed && with_reg(|r| r.panic_at.is_none()) {
